@@ -452,6 +452,10 @@ class _Printer:
             # inside the braces the lexer is in JSON mode: indentation is free there (but keep the last
             # line, whose end is outside the JSON mode, unremarkable)
             last = n == len(rest) - 1
+            if self.rng.random() < 0.12:
+                # a pasted JSON block: the line starts with a tab, or with blanks and a tab (free inside the braces)
+                self.emit(self.rng.choice([0, 0, 2, base]), "\t" * self.rng.randint(1, 2) + txt, in_json=not last)
+                continue
             self.emit(base + ind, txt, in_json=not last)
 
     def call_like(self, s, col):
@@ -1620,6 +1624,11 @@ def enumerate_faults(prog):
                         bads = [1, True] + [p for p, ty in spaths if ty == "number" and "[0]" not in p][:1]
                     else:
                         bads = []
+                    # a whole struct or a whole array as operand: ill-typed under every operator, == and != included
+                    for bad in [p for p, ty in spaths if (parse_type(ty)[1] is not None or parse_type(ty)[0] in S) and "[0]" not in p][:2]:
+                        if ety in ("number", "boolean", "string") and not (top and not oref):
+                            add("expr_ill_typed_operand", ref, edit("set", ref, ref=eref + oref if oref else eref, value=bad),
+                                "%s operand %s := %s (a struct / an array)" % (ety, ".".join(oref) or "whole", expr_text(bad)))
                     for bad in bads:
                         add("expr_mixed_type_equality" if ctx in ("==", "!=") else "expr_ill_typed_operand", ref, edit("set", ref, ref=eref + oref if oref else eref, value=bad),
                             "%s operand %s := %s" % (ety, ".".join(oref) or "whole", expr_text(bad)))
